@@ -25,7 +25,7 @@ func (c03) Budget(tier string) int {
 	if tier == "thorough" {
 		return 300000
 	}
-	return 6000
+	return 48000
 }
 
 func (c03) Describe() engine.Info {
